@@ -117,7 +117,13 @@ impl<'t> FieldTypeAndInstantiationsBuilder<'t, '_> {
 					format!(#pattern, namespace.get())
 				}
 			}
-			Some(namespace) => {
+			Some(namespace) => 'new_name: {
+				if let FieldKind::StructField { field_name, .. } = field_kind {
+					// `type_name` already starts with the explicit namespace, and holds the
+					// hash of the generic instantiation if any
+					let pattern = format!(r#"{{}}.{}"#, field_name.unraw());
+					break 'new_name quote! { format!(#pattern, type_name) };
+				}
 				let namespace_prefix = if namespace.is_empty() {
 					"".to_owned()
 				} else {
